@@ -30,6 +30,7 @@ import (
 	"encoding/json"
 	"fmt"
 	"math/rand"
+	"os"
 	"regexp"
 	"runtime"
 	"sort"
@@ -336,6 +337,21 @@ func run(ctx *core.Ctx) error {
 		return err
 	}
 	ctx.Logf("cases: %d in total (%d wiring files, %d pipe, %d exploration)", len(pl.reqs), nWiringReqs, nPipe, len(pl.reqs)-nWiringReqs-nPipe)
+
+	// development aid: C05_ONLY=pipe,family:chain runs only the cases whose class has one of the prefixes
+	if only := os.Getenv("C05_ONLY"); only != "" {
+		var keep []*Req
+		for _, r := range pl.reqs {
+			for _, p := range strings.Split(only, ",") {
+				if strings.HasPrefix(pl.info[r.ID].class, p) {
+					keep = append(keep, r)
+					break
+				}
+			}
+		}
+		pl.reqs = keep
+		ctx.Logf("C05_ONLY=%s: %d cases kept (evidence of this run is partial)", only, len(keep))
+	}
 
 	// ---- execute ----
 	pool, err := newPool()
